@@ -10,7 +10,8 @@ import Nstd.Xml.LemmasGen
   hand-written model functions (Model.lean) — about which Props.lean, PropsDecor.lean prove the property — ARE these
   translations, on every state.  A change of one of those C++ bodies changes the generated definition; if the behaviour
   changes, the equality below no longer checks (a broken obligation -> the check searches a failing input).
-  What stays hand-translated and tied only by the correspondence run: `parse` (prologue loop), `parseElement`
+  (second leg: also the loop over one processing instruction of `parse` and the loop body of `escapeString`.)
+  What stays hand-translated and tied only by the correspondence run: the rest of `parse`, `parseElement`
   (attribute loop, content loop with rewind), `unescapeString`, the loop structure of `escapeString` behind its first
   condition, `Element::toString`.
 -/
@@ -140,6 +141,44 @@ theorem textRun_eq (t : Bytes) (start : Nat) : ∀ (f : Nat) (p : Pos) (ce : Opt
 theorem parseText_is_translation (t : Bytes) (p : Pos) (ce : Option Pos) (tok : Token) (tx : Bytes) :
     parseText t p = textRun t p.pos (t.length + 2) ⟨p, ce, tok, tx⟩ :=
   textRun_eq t p.pos (t.length + 2) p ce tok tx (Nat.le_refl _)
+
+/-- iteration of the translated body of the loop over ONE processing instruction (`parse`, inside
+    `while(*pos.pos == '<' && pos.pos[1] == '?')`); `sp` = the saved `startPos` -/
+def piRun (t : Bytes) (sp : Pos) : Nat → St → Res Pos
+  | 0, _ => .fuel
+  | f + 1, s => (Generated.parsePi_loop0 t sp.line sp.ls sp.pos s).bind fun r => match r with
+      | .next _ s' => piRun t sp f s'
+      | .enter _ s' _ => .ok s'.pos
+      | .ret s' => .ok s'.pos
+
+/-- one run of the translated loop body (find CR, LF or `?`; `?>` ends the instruction; a lone `?` is stepped over; a line
+    break is counted) is one step of the model's `piInner` -/
+theorem parsePi_loop_body (t : Bytes) (f : Nat) (sp p : Pos) (ce : Option Pos) (tok : Token) (tx : Bytes) :
+    piInner t (f + 1) sp p = (Generated.parsePi_loop0 t sp.line sp.ls sp.pos ⟨p, ce, tok, tx⟩).bind (piK t f sp) :=
+  piInner_translated t f sp p ce tok tx
+
+/-- the statements in front of that loop: `Position startPos = pos; pos.pos += 2;` -/
+theorem parsePi_frame (t : Bytes) (p : Pos) (ce : Option Pos) (tok : Token) (tx : Bytes) :
+    Generated.parsePi_entry t ⟨p, ce, tok, tx⟩ =
+      .ok (.enter 0 ⟨⟨p.line, p.pos + 2, p.ls⟩, ce, tok, tx⟩ [p.line, p.ls, p.pos]) := rfl
+
+/-- the prologue loop of `parse` over one processing instruction: the model's `piInner` (about which `pi_before_root` and
+    `pi_prologue_skipped` speak) is the iteration of the TRANSLATED loop body, for every text, fuel, start position and cursor -/
+theorem parsePi_is_translation (t : Bytes) (sp : Pos) : ∀ (f : Nat) (p : Pos) (ce : Option Pos) (tok : Token) (tx : Bytes),
+    piInner t f sp p = piRun t sp f ⟨p, ce, tok, tx⟩ := by
+  intro f
+  induction f with
+  | zero => intro p ce tok tx; simp [piInner, piRun]
+  | succ f ih =>
+    intro p ce tok tx
+    rw [piInner_translated t f sp p ce tok tx]
+    simp only [piRun]
+    congr 1
+    funext r
+    cases r with
+    | next l s => exact ih s.pos s.ce s.tok s.text
+    | enter l s loc => rfl
+    | ret s => rfl
 
 theorem escapePlain_translated (attr : Bool) (c : UInt8) :
     Generated.escapePlain attr c = ((c ≥ 64 || c < 32) && !(attr && (c == 10 || c == 13))) := by
